@@ -33,26 +33,25 @@ var boundsExemptUnits = map[string]string{
 }
 
 var boundsExempt = map[string]string{
-	"server.(*Server).liveSubscription→m[kind]":                      "two-element array indexed by the internal subscription kind constant",
-	"server.(*Server).liveSubscription→m[kind]#2":                    "two-element array indexed by the internal subscription kind constant",
-	"server.(*Server).loadAOF$1→suf[0]":                              "suf is a five-element literal that the loop shortens only while len(suf) > 1",
-	"server.(*Server).netServe$2→packet[len(packet) - rdbuf.Len():]": "rdbuf is a bytes.Buffer created over packet; its unread length never exceeds len(packet) (library contract)",
-	"server.(*lStatePool).New$2→args[0]":                             "tile38.call with no arguments panics here, but the closure only runs inside gopher-lua's PCall, which recovers Go panics into a script error (the script fails, the server does not)",
-	"server.(*lStatePool).New$2→args[1:]":                            "same closure: evaluated after args[0]",
-	"server.(*lStatePool).New$3→args[0]":                             "tile38.pcall, as for tile38.call: runs under PCall's recover",
-	"server.(*lStatePool).New$3→args[1:]":                            "same closure: evaluated after args[0]",
-	"server.baseToNumber→str[2:]":                                    "guarded by HasPrefix(ToLower(str), \"0x\"): only ASCII '0','x','X' lower-case to \"0x\", so str has these two bytes; also runs under PCall's recover",
-	"server.extendRoamMessage→baseMsg[:len(baseMsg) - 1]":            "baseMsg is a fence message assembled by makemsg (always ends in '}'), not client bytes",
-	"server.fenceMatch→res[1:]#3":                                    "res is the non-empty output of scanWriter.writeObject for one object (checked by sw.wr.Len() != 0 above), not client bytes",
-	"server.fenceMatch→res[1:]#4":                                    "as above",
-	"server.getFieldValue→name[len(\"properties\") + 1:]":            "guarded by isPathKey(name, \"properties\") && name != \"properties\": a proper extension of the prefix is longer than it (string inequality, outside the zone domain)",
-	"server.isPathKey→s[len(key)]":                                   "evaluated only when HasPrefix(s, key) && s != key, i.e. len(s) > len(key) (string inequality, outside the zone domain)",
-	"server.mvtFilterHTTPArgs→parts[3][:len(parts[3]) - 4]":          "called only for paths with the suffix .mvt or .pbf (handleInputCommand); the suffix contains no '/', so it lies in the last of the four segments",
-	"server.readNextHTTPCommand→headers[0]":                          "the caller (readNextCommand) found a complete first line ending in ' HTTP/x.y\\r\\n', so the first readcrlfline yields a non-empty request line before any empty line",
-	"server.readNextHTTPCommand→headers[1:]":                         "as above: headers has at least the request line",
-	"server.uint64ToString→s[len(s) - 20:]":                          "s starts with strings.Repeat(\"0\", 20)",
-	"glob.matchChunk→chunk[0]#4":                                     "follows getEsc(chunk) with err == nil, and getEsc returns ErrBadPattern whenever the remainder is empty (conditional post-condition, outside the zone domain)",
-	"glob.matchChunk→chunk[1:]#5":                                    "same statement as chunk[0] above",
+	"server.(*Server).liveSubscription→m[kind]":             "two-element array indexed by the internal subscription kind constant",
+	"server.(*Server).liveSubscription→m[kind]#2":           "two-element array indexed by the internal subscription kind constant",
+	"server.(*Server).loadAOF$1→suf[0]":                     "suf is a five-element literal that the loop shortens only while len(suf) > 1",
+	"server.(*lStatePool).New$2→args[0]":                    "tile38.call with no arguments panics here, but the closure only runs inside gopher-lua's PCall, which recovers Go panics into a script error (the script fails, the server does not)",
+	"server.(*lStatePool).New$2→args[1:]":                   "same closure: evaluated after args[0]",
+	"server.(*lStatePool).New$3→args[0]":                    "tile38.pcall, as for tile38.call: runs under PCall's recover",
+	"server.(*lStatePool).New$3→args[1:]":                   "same closure: evaluated after args[0]",
+	"server.baseToNumber→str[2:]":                           "guarded by HasPrefix(ToLower(str), \"0x\"): only ASCII '0','x','X' lower-case to \"0x\", so str has these two bytes; also runs under PCall's recover",
+	"server.extendRoamMessage→baseMsg[:len(baseMsg) - 1]":   "baseMsg is a fence message assembled by makemsg (always ends in '}'), not client bytes",
+	"server.fenceMatch→res[1:]#3":                           "res is the non-empty output of scanWriter.writeObject for one object (checked by sw.wr.Len() != 0 above), not client bytes",
+	"server.fenceMatch→res[1:]#4":                           "as above",
+	"server.getFieldValue→name[len(\"properties\") + 1:]":   "guarded by isPathKey(name, \"properties\") && name != \"properties\": a proper extension of the prefix is longer than it (string inequality, outside the zone domain)",
+	"server.isPathKey→s[len(key)]":                          "evaluated only when HasPrefix(s, key) && s != key, i.e. len(s) > len(key) (string inequality, outside the zone domain)",
+	"server.mvtFilterHTTPArgs→parts[3][:len(parts[3]) - 4]": "called only for paths with the suffix .mvt or .pbf (handleInputCommand); the suffix contains no '/', so it lies in the last of the four segments",
+	"server.readNextHTTPCommand→headers[0]":                 "the caller (readNextCommand) found a complete first line ending in ' HTTP/x.y\\r\\n', so the first readcrlfline yields a non-empty request line before any empty line",
+	"server.readNextHTTPCommand→headers[1:]":                "as above: headers has at least the request line",
+	"server.uint64ToString→s[len(s) - 20:]":                 "s starts with strings.Repeat(\"0\", 20)",
+	"glob.matchChunk→chunk[0]#4":                            "follows getEsc(chunk) with err == nil, and getEsc returns ErrBadPattern whenever the remainder is empty (conditional post-condition, outside the zone domain)",
+	"glob.matchChunk→chunk[1:]#5":                           "same statement as chunk[0] above",
 }
 
 func ruleBounds(c *Ctx) {
